@@ -131,10 +131,12 @@ def run(tier):
         sc = scenario(n, [rng.choice(keys) for _ in range(rng.choice([200, 300, 400]))], rng, "mix")
         sc["burst"] = True
         sc["perf"] = {"strategy": ["block", "block", "expand", "drop"][i % 4], "blockms": 5000}
-        if i % 3 == 0:      # a lagging consumer: many fired batches wait in the window's output queue, each stays a batch of its own
-            sc["perf"]["slowsink"] = rng.choice([1000, 2000])
-        if i % 4 == 2:      # the input buffer has to be expanded while the rows come in: still each row once, in order
-            sc["perf"].update(data=rng.choice([2, 4, 8]), max=1024, mininc=4)
+        if i % 4 < 2 and i % 2 == 0:      # block strategy with a lagging consumer: many fired batches wait in the window's output queue, each stays a batch of its own
+            sc["perf"]["slowsink"] = rng.choice([500, 1000])
+        if i % 4 >= 2:      # "drop" and "expand" shed a batch that finds the window's output queue full (assumption: it never overflows): room for every batch of the burst
+            sc["perf"]["winout"] = 1024
+        # (an input buffer that has to be EXPANDED during the burst is C19's and C05's subject: the recorded reorder race ExpansionReordersRows
+        #  would show up here as a batch of other rows)
         scen.append(sc)
     seqfam.run_scenarios(res, scen, "TraceBatch", tag="batch", relayout_p=0.3, retype_p=0.3, rename_p=0.3)
     seqfam.run_pinned(res, "TraceBatch")
